@@ -119,11 +119,14 @@ def run_socks(ctx, exe, wd, units, label):
             raise Inconclusive("SOCKS driver died without a panic (rc=%s):\n%s" % (rc, log[-3000:]))
         crashes += 1
         started = [e for e in evs if e["ev"] == "S" and e["id"] not in finished]
+        # the death can also come from a goroutine a unit left behind (a relay loop choking on what it was handed), after
+        # that unit's own record: the most recently finished units are suspects as well
+        recent = [e for e in reversed(evs) if e["ev"] == "S" and e["id"] in finished][:48]
         culprit = None
-        if len(started) == 1:
+        if len(started) == 1 and not recent:
             culprit = started[0]
-        else:  # several units were in flight: present each alone
-            for s in started:
+        else:  # present each suspect alone
+            for s in started + recent:
                 f1, o1 = os.path.join(wd, "%s_one_in.ndjson" % label), os.path.join(wd, "%s_one_out.ndjson" % label)
                 if os.path.exists(o1):
                     os.remove(o1)
@@ -133,7 +136,18 @@ def run_socks(ctx, exe, wd, units, label):
                     culprit, log, (msg, sig) = s, log1, crash_signature(log1)
                     break
         if culprit is None:
-            raise Inconclusive("SOCKS driver crashed (%s) but no single unit in flight reproduces it:\n%s" % (msg, log[-3000:]))
+            if "|" in sig and not sig.startswith("?"):
+                # a death inside mieru's own code is an observation of the real code even if no single unit brings it back
+                crashes += 1
+                suspects = [x for x in pending if x["id"] in {e["id"] for e in started + recent}]
+                rp = ctx.save_replay("crash_%s_%d.json" % (label, crashes), {"units": suspects, "panic": msg, "log_tail": log[-6000:]})
+                ctx.report("process died: %s -- not reproduced by any single unit; units in flight or just finished: %s"
+                           % (msg, json.dumps([u["m"] for u in suspects[:3]])[:300]), rp, "C10:" + sig)
+                events.append({"ev": "Crash", "id": -1, "world": "?", "m": suspects[0]["m"] if suspects else {}, "ok": False, "note": msg, "hex": sig})
+                gone = {u["id"] for u in suspects}
+                pending = [x for x in pending if x["id"] not in finished and x["id"] not in gone]
+                continue
+            raise Inconclusive("SOCKS driver crashed (%s) outside mieru's code and no single unit reproduces it:\n%s" % (msg, log[-3000:]))
         events.append({"ev": "Crash", "id": culprit["id"], "world": culprit["world"], "m": culprit["m"], "ok": False, "note": msg, "hex": sig})
         u = next(x for x in pending if x["id"] == culprit["id"])
         rp = ctx.save_replay("crash_%s_%d.json" % (label, crashes), {"unit": u, "panic": msg, "log_tail": log[-6000:]})
